@@ -565,4 +565,47 @@ def pcaSolveMax (sqrt : α → α) (svd : Mat α → Svd α) (eigh : Mat α → 
                    filtflux := st.filt, passes := L.iiter, ngood := st.ngood })
     | _, _ => .error "unreachable"
 
+/-! ## Extension round 2: single spectrum given as a vector; k-means returning fewer than `K` centroids -/
+
+/-- `pca_solve(newflux, newivar)` with a ONE-dimensional `newflux` of length `npix` (`nobj = 1`).
+`ivarDim` is `newivar.ndim`.  With a one-dimensional `newivar` the tuple `newivar.nonzero()` has one entry and
+`nzi[1]` raises IndexError (before the `nobj == 1` return is reached).  With a two-dimensional `newivar`
+(`r × npix`, `r ≥ 1`) only row 0 is looked at: `nzi[1][nzi[0] == 0].min()` raises ValueError when that row has no
+non-zero entry; otherwise the flux is returned (as float32, rounding is the caller's business). -/
+def pcaSolveVec (npix ivarDim : Nat) (flux : Nat → α) (ivar : Nat → Nat → α) : Except String (PcaOut α) :=
+  if ivarDim = 1 then .error "IndexError"
+  else if firstNonzero npix (ivar 0) = npix then .error "ValueError"
+  else .ok (.single (vtab npix flux))
+
+/-- `HMF.iterate()` after the k-means call when `kmeans` returned `Kg` centroids (`g0` has `Kg` rows; scipy drops empty
+clusters, so `Kg < K` is possible).  `Kg = K` is `iterate`.  Otherwise `a` is `N × K` (built from `self.K`) while `g` is
+`Kg × M`: in non-negative mode the first `astepnn` raises ValueError (`np.dot(a, g)`: shapes not aligned); in the default
+mode the first sweep runs with `Kg` components up to the normalisation `np.repeat(norm, N).reshape(self.K, N)`, which
+raises ValueError; with no sweep at all (`n_iter = 0`, and no non-negative pre-iterations) the start values are returned
+with their different numbers of components. -/
+def iterateKg (sqrt : α → α) (solve : Mat α → Vec α → Vec α) (eigh : Mat α → Eig α)
+    (N M K Kg nIter nnPre : Nat) (s0 w : Nat → Nat → α) (g0 : Nat → Nat → α) (nonneg : Bool)
+    (eps : Option α) : Except String (Mat α × Mat α) :=
+  if Kg = K then .ok (iterate sqrt solve eigh N M K nIter nnPre s0 w g0 nonneg eps)
+  else if nonneg && decide (0 < nnPre) then .error "ValueError"
+  else if 0 < nIter then .error "ValueError"
+  else
+    let s := mget (iterateSpectra N M s0 nonneg)
+    let nb := normbase sqrt Kg M g0
+    .ok (mtab N K fun i _ => sqrt ((sumN M fun j => s i j * s i j) / Scalar.ofNat M) * (1 / Scalar.ofNat K),
+         mtab Kg M fun k j => g0 k j / vget nb k)
+
+/-- `iterateCols` with `Kg` centroids from k-means -/
+def iterateColsKg (sqrt : α → α) (solve : Mat α → Vec α → Vec α) (eigh : Mat α → Eig α)
+    (N M K Kg nIter nnPre : Nat) (s0 w : Nat → Nat → α) (g0 : Nat → Nat → α) (nonneg : Bool)
+    (eps : Option α) : Except String (HmfOut α) :=
+  let s : Nat → Nat → α := fun i j => if nonneg then (if s0 i j < 0 then 0 else s0 i j) else s0 i j
+  let nz := countN M (zeroCol N s w)
+  match findContiguous M (fun j => !(zeroCol N s w j)) with
+  | none => .error "ValueError"
+  | some (c0, M') =>
+    match iterateKg sqrt solve eigh N M' K Kg nIter nnPre (fun i j => s i (c0 + j)) (fun i j => w i (c0 + j)) g0 nonneg eps with
+    | .error e => .error e
+    | .ok r => .ok { col0 := c0, ncol := M', nzero := nz, a := r.1, g := r.2 }
+
 end PydlVerif.Solvers
